@@ -1,7 +1,7 @@
 (* C11 - Rate/concurrency limits are enforced and every permit is returned. *)
 From Maddy Require Limits.Corr.
 From Maddy Require Import Lib.Base Limits.Model Limits.Lemmas.
-From Maddy Require Limits.Reap Limits.ReapLemmas.
+From Maddy Require Limits.Reap Limits.ReapLemmas Limits.ReapMon.
 Local Open Scope N_scope.
 
 (* [reach cfg max g m d]: g is reachable from the initial group by ANY interleaving of takes,
@@ -98,6 +98,16 @@ Proof.
   split; [|split; [|exact NP]]; intro k; destruct (I k) as [A B]; [rewrite <- A; exact B|exact A].
 Qed.
 Print Assumptions C11_reaper_sound.
+
+(* The monitor the implementation's reaper histories are held to (clauses 30, 31 of Limits/Reap.v: never
+   more holders of a key than its limit, no crash) accepts every history of the model: a reported
+   violation is never an artefact of the model disagreeing with its own monitor. *)
+Theorem C11_reaper_model_histories_pass_the_monitor :
+  forall cap maxb ops,
+    ReapLemmas.wf_hist cap maxb [] [] ops ->
+    Reap.mon cap [] ops (Reap.rrun cap maxb [] ops) = [].
+Proof. intros cap maxb ops W. exact (ReapMon.model_passes_monitor cap maxb ops [] [] (ReapLemmas.inv0 cap) W). Qed.
+Print Assumptions C11_reaper_model_histories_pass_the_monitor.
 
 (* non-vacuity: a key comes back after an idle period to an over-full table; its own idle bucket is
    reaped, the bucket of the key that still holds a permit is not, and the table is full again *)
